@@ -10,6 +10,14 @@ COMMON_TRUSTED = [
 ]
 
 PROPS = {
+    "C01": dict(
+        bin="c01", drv="drv_c01", drv_module="OZ.Drv.C01", props=["OZ.Props.C01"],
+        shards=dict(quick=1, thorough=8),
+        trusted=["temporary-entry TTL semantics of the host as modelled in OZ/Model/Host.lean (read from soroban-env-host 25.0.1)",
+                 "flavours other than Base (allow/block-list, capped, pausable, votes, vault shares, RWA) reach balances only "
+                 "through Base::update (by reading); their wiring is exercised by the C04/C05/C13/C16 correspondences"],
+        assumptions=["accounts mentioned by the operations lie in a duplicate-free universe U; all other balances are 0"],
+    ),
     "C12": dict(
         bin="c12", drv="drv_c12", drv_module="OZ.Drv.C12", props=["OZ.Props.C12"], unit="op",
         shards=dict(quick=1, thorough=6),
